@@ -186,6 +186,9 @@ func (p *PDU) RespReadBits() ([]bool, error) {
 	}
 
 	count := p.Data[0]
+	if len(p.Data) < 1+(int(count)+7)/8 {
+		return []bool{}, errors.New("RespReadBits not enough data")
+	}
 	ret := make([]bool, count)
 	byteIndex := 0
 	bitIndex := uint(0)
@@ -197,6 +200,35 @@ func (p *PDU) RespReadBits() ([]bool, error) {
 			byteIndex++
 			bitIndex = 0
 		}
+	}
+
+	return ret, nil
+}
+
+// RespReadBitsCount reads count coils or discrete inputs from a
+// response PDU. The byte count of a response does not tell how many of
+// the bits in its last byte were requested, so the caller passes the
+// number of bits it asked for; a response that does not carry exactly
+// the bytes needed for count bits is rejected.
+func (p *PDU) RespReadBitsCount(count uint16) ([]bool, error) {
+	if len(p.Data) < 1 {
+		return []bool{}, errors.New("not enough data")
+	}
+	switch p.FunctionCode {
+	case FuncCodeReadCoils, FuncCodeReadDiscreteInputs:
+		// ok
+	default:
+		return []bool{}, errors.New("invalid function code to read bits")
+	}
+
+	bytes := (int(count) + 7) / 8
+	if int(p.Data[0]) != bytes || len(p.Data) != 1+bytes {
+		return []bool{}, errors.New("byte count does not match the number of bits requested")
+	}
+
+	ret := make([]bool, count)
+	for i := 0; i < int(count); i++ {
+		ret[i] = (p.Data[1+i/8]>>(i%8))&1 == 1
 	}
 
 	return ret, nil
